@@ -28,11 +28,12 @@ inductive UBKind where
   | bufOverflow     -- write past a `new char[n]`
   | floatCast       -- float → integer conversion out of range
   | signedOverflow
+  | nonTermination  -- not a C++ notion: marks a model loop that ran out of fuel, i.e. a hang of the real loop
   deriving DecidableEq, Repr, Inhabited
 
 def UBKind.toString : UBKind → String
   | .vecIndex => "vecIndex" | .allocMismatch => "allocMismatch" | .bufOverflow => "bufOverflow"
-  | .floatCast => "floatCast" | .signedOverflow => "signedOverflow"
+  | .floatCast => "floatCast" | .signedOverflow => "signedOverflow" | .nonTermination => "nonTermination"
 
 /-- Result of a pure look-up: a value, a thrown exception class, or undefined behaviour. -/
 inductive Res (α : Type) where
